@@ -176,6 +176,11 @@ Proof.
   destruct (c =? 34); simpl; lia.
 Qed.
 
+Lemma escape_len_ge s : lenN s <= lenN (escape s).
+Proof.
+  induction s as [|c s IH]; [cbn; lia|]. pose proof (escape_cons_len c s) as H. unfold lenN in *. cbn [length]. unfold byte in *. lia.
+Qed.
+
 Lemma quoted_escape s : forall fuel acc n sz rest,
   n + lenN s < sz -> (length (escape s) < fuel)%nat ->
   quoted_body fuel (escape s ++ 34 :: rest) acc n sz = inl (rev acc ++ s, rest).
